@@ -57,7 +57,7 @@ func (c02) Build(tier string, seed uint64) []any {
 	geos := []geo{{1, 1, 1, 2}, {2, 1, 1, 2}, {1, 2, 1, 2}, {3, 1, 1, 2}, {1, 3, 1, 2}, {2, 2, 1, 2}, {3, 2, 1, 2}, {2, 3, 1, 2}, {1, 1, 3, 2}, {2, 1, 3, 2}, {1, 2, 3, 2},
 		{1, 1, 1, 3}, {2, 1, 1, 3}, {1, 2, 1, 3}, {2, 2, 1, 3}}
 	if th {
-		geos = append(geos, geo{3, 3, 1, 2}, geo{2, 2, 3, 2}, geo{3, 2, 1, 3}, geo{2, 3, 1, 3}, geo{6, 1, 1, 3}, geo{1, 6, 1, 3}, geo{2, 2, 1, 4}, geo{4, 1, 1, 4}, geo{1, 1, 3, 4})
+		geos = append(geos, geo{3, 3, 1, 2}, geo{3, 1, 3, 2}, geo{3, 2, 1, 3}, geo{2, 3, 1, 3}, geo{6, 1, 1, 3}, geo{1, 6, 1, 3}, geo{2, 2, 1, 4}, geo{4, 1, 1, 4}, geo{1, 1, 3, 4})
 	}
 	for _, g := range geos {
 		for sel := 0; sel <= 8; sel++ {
